@@ -233,7 +233,29 @@ pub fn oracle_c07(case: &C07Case, st: &mut Stats) -> Verdict {
         st.eval();
         let (base, base_class) = &names[crate::gen::pick(*sel, names.len())];
         // at / below / above the catalog's names
-        let qname = match how % 4 {
+        let qname = match how % 5 {
+            4 => {
+                // wire-form confusable sibling: the first label contains the length octet and the
+                // text of the base name's first label, so that the tail of the QNAME's wire form
+                // equals the base name's wire form although it is not at or below it
+                let mut labels = base.labels.clone();
+                if labels.is_empty() {
+                    base.clone()
+                } else {
+                    let mut first = vec![b'x', labels[0].len() as u8];
+                    first.extend_from_slice(&labels[0]);
+                    labels[0] = first;
+                    if *sel % 2 == 0 {
+                        labels.insert(0, b"w".to_vec());
+                    }
+                    let n = MName { labels };
+                    if n.is_valid() {
+                        n
+                    } else {
+                        base.clone()
+                    }
+                }
+            }
             0 => base.clone(),
             1 => {
                 let c = base.child(b"deep").child(b"er");
